@@ -172,6 +172,43 @@ pub fn run_build(ctx: &Ctx) -> Report {
         check_variants(&u, (la, s, r), &menus, l, &coll);
     });
     rep.add_space(&format!("{}:E4.variants", tag), json!({"triples": n, "variant_lists": 3}), &st2);
+    // histories of two calls over all layout locales, on one thread: the answer for y must not
+    // depend on the call made before it
+    {
+        let t0 = std::time::Instant::now();
+        let ids: Vec<Option<LanguageIdentifier>> = dr.locales.iter().map(|x| x.0.parse().ok()).collect();
+        let alone: Vec<Option<Dir>> = ids.iter().map(|i| i.as_ref().and_then(|li| guard_total(|| li.character_direction()).ok().map(to_dir))).collect();
+        let mut pairs = 0u64;
+        let mut bad = 0u64;
+        for (i, x) in ids.iter().enumerate() {
+            let Some(x) = x else { continue };
+            for (j, y) in ids.iter().enumerate() {
+                let Some(y) = y else { continue };
+                pairs += 1;
+                let r = guard_total(|| {
+                    let _ = x.character_direction();
+                    to_dir(y.character_direction())
+                });
+                if r.as_ref().ok() != alone[j].as_ref() && bad < 1000 {
+                    bad += 1;
+                    coll.push(pairs, Violation {
+                        sub: "c14.history",
+                        class: "character_direction of an identifier depends on the call made before it (state kept between calls)".into(),
+                        case: Case::Text(format!("dirhist:{}:{}|{}", tag, dr.locales[i].0, dr.locales[j].0)),
+                        expected: format!("{:?}", alone[j]),
+                        observed: format!("{:?}", r),
+                    });
+                }
+            }
+        }
+        rep.states += pairs;
+        rep.transitions += pairs * 2;
+        rep.evaluations += pairs;
+        rep.traces += pairs;
+        let e = rep.extra.entry("engines".to_string()).or_insert_with(|| json!({}));
+        e[format!("{}:E3.locale_pairs", tag)] = json!({"space": {"kind": "every ordered pair (x, y) of the CLDR layout locales: direction(x), then direction(y) on one thread; direction(y) must equal its answer in isolation", "pairs": pairs},
+            "inputs": pairs, "wall_s": (t0.elapsed().as_secs_f64() * 100.0).round() / 100.0});
+    }
     rep.collector = coll;
     rep.distinct_nontrivial = st.local.nontrivial;
     rep.samples = st.local.samples_json(10);
@@ -274,6 +311,23 @@ pub fn run_c14(ctx: &Ctx) -> Report {
     rep.rule = "E4, complete, in two builds of the library (with and without the likelysubtags feature): all CLDR layout locales (clauses 1 and 4: equality with characterOrder / differences only within the stated allowance), every (language, script, region) of the CLDR universe plus unknowns (clauses 2 and 3: a listed script decides alone; unlisted/absent script + language never listed RTL => LTR), and a sub-universe x 3 variant lists (variants never matter). Non-trivial = direction other than LTR.".into();
     rep.assumptions = vec!["data/cldr-misc-full/main/*/layout.json is the source of truth; 'root' is not an identifier and is skipped".into()];
     rep
+}
+
+pub fn replay_hist(text: &str, coll: &Collector) {
+    // dirhist:<build>:<x>|<y>
+    let parts: Vec<&str> = text.splitn(3, ':').collect();
+    if parts.len() != 3 || (parts[1] == "likelysubtags") != WITH_LIKELY {
+        return;
+    }
+    let Some((x, y)) = parts[2].split_once('|') else { return };
+    let (Ok(x), Ok(y)) = (x.parse::<LanguageIdentifier>(), y.parse::<LanguageIdentifier>()) else { return };
+    // "in isolation": on a fresh thread (thread-local state) ...
+    let alone = std::thread::scope(|s| s.spawn(|| to_dir(y.character_direction())).join().unwrap());
+    // ... and after x
+    let after = std::thread::scope(|s| s.spawn(|| { let _ = x.character_direction(); to_dir(y.character_direction()) }).join().unwrap());
+    if alone != after {
+        coll.push(0, Violation { sub: "c14.history", class: "history".into(), case: Case::Text(text.to_string()), expected: format!("{:?}", alone), observed: format!("{:?}", after) });
+    }
 }
 
 pub fn replay(ctx: &Ctx, text: &str, coll: &Collector) {
